@@ -52,13 +52,16 @@ type command struct {
 //
 // We need to keep searching for successful queries of f while *ctr > 0.
 // When we find a successful result, we decrement *ctr.
-func workerSearch(results []interface{}, f func(int) interface{}, ctr *int64) {
-	for atomic.LoadInt64(ctr) > 0 {
+func workerSearch(results []interface{}, f func(int) interface{}, ctr *int64, id int) {
+	for yield(3, id); atomic.LoadInt64(ctr) > 0; yield(3, id) {
+		yield(4, id)
 		res := f(0)
 		if res == nil {
 			continue
 		}
+		yield(5, id)
 		i := atomic.AddInt64(ctr, -1)
+		yield(6, id)
 		if i >= 0 {
 			results[i] = res
 		}
@@ -66,16 +69,22 @@ func workerSearch(results []interface{}, f func(int) interface{}, ctr *int64) {
 }
 
 // worker starts up a new worker, listening to commands, and producing results
-func worker(commands <-chan command) {
+func worker(commands <-chan command, id int) {
+	yield(0, id)
 	for c := range commands {
 		if c.search {
-			workerSearch(c.results, c.f, c.ctr)
+			workerSearch(c.results, c.f, c.ctr, id)
 		} else {
+			yield(1, id)
 			c.results[c.i] = c.f(c.i)
+			yield(2, id)
 			atomic.AddInt64(c.ctr, -1)
 		}
+		yield(7, id)
 		c.ctrChanged <- struct{}{}
+		yield(0, id)
 	}
+	yield(8, id)
 }
 
 // Pool represents a pool of workers, used for parallelizing functions.
@@ -111,7 +120,7 @@ func NewPool(count int) *Pool {
 	p.workerCount = count
 
 	for i := 0; i < count; i++ {
-		go worker(p.commands)
+		go worker(p.commands, i)
 	}
 
 	return &p
@@ -139,6 +148,7 @@ func (p *Pool) Search(count int, f func() interface{}) []interface{} {
 
 	ctr := int64(count)
 	ctrChanged := make(chan struct{})
+	expose(&ctr, results)
 	cmd := command{
 		search:     true,
 		ctr:        &ctr,
@@ -149,6 +159,7 @@ func (p *Pool) Search(count int, f func() interface{}) []interface{} {
 	cmdI := 0
 	done := 0
 	for cmdI < p.workerCount {
+		yield(10, -1)
 		select {
 		case p.commands <- cmd:
 			cmdI++
@@ -156,10 +167,14 @@ func (p *Pool) Search(count int, f func() interface{}) []interface{} {
 			done++
 		}
 	}
+	yield(11, -1)
 	for ; done < p.workerCount; done++ {
+		yield(12, -1)
 		<-ctrChanged
+		yield(11, -1)
 	}
 
+	yield(13, -1)
 	return results
 }
 
@@ -175,6 +190,7 @@ func (p *Pool) Parallelize(count int, f func(int) interface{}) []interface{} {
 
 	ctr := int64(count)
 	ctrChanged := make(chan struct{})
+	expose(&ctr, results)
 	cmdI := 0
 	done := 0
 	for cmdI < count {
@@ -189,6 +205,7 @@ func (p *Pool) Parallelize(count int, f func(int) interface{}) []interface{} {
 		// We won't be able to send all the commands without blocking, so we make
 		// sure to interleave picking off the results of workers to free them up
 		// to receive our commands
+		yield(10, -1)
 		select {
 		case p.commands <- cmd:
 			cmdI++
@@ -196,10 +213,14 @@ func (p *Pool) Parallelize(count int, f func(int) interface{}) []interface{} {
 			done++
 		}
 	}
+	yield(11, -1)
 	for ; done < count; done++ {
+		yield(12, -1)
 		<-ctrChanged
+		yield(11, -1)
 	}
 
+	yield(13, -1)
 	return results
 }
 
